@@ -156,8 +156,14 @@ func (d *deepCopier) deepCopyPtr(in, out reflect.Value) {
 	if in.IsNil() {
 		return
 	}
-	pKey := ptrKey{ptr: in.Pointer(), typ: in.Type()}
+	// Key on the unnamed pointer type, so references of a defined pointer
+	// type (type Ref *Node) and plain ones (*Node) to the same pointee share
+	// one entry (registerPair can only know the unnamed type).
+	pKey := ptrKey{ptr: in.Pointer(), typ: reflect.PointerTo(in.Type().Elem())}
 	if ov, ok := d.ptrMap[pKey]; ok {
+		if ov.Type() != out.Type() {
+			ov = ov.Convert(out.Type())
+		}
 		out.Set(ov)
 		// The deep part of the copying has already been taken care of
 		return
